@@ -19,12 +19,52 @@ Record caccess := mkcacc { ca_struct : string; ca_method : string; ca_field : st
                            ca_locks : list string; ca_file : string; ca_line : nat }.
 
 Definition mem_s (x : string) (l : list string) : bool := existsb (String.eqb x) l.
+
+(* ------------------------------------------------------------------ interprocedural lock sets *)
+(* a call of method cc_callee on the same receiver from cc_caller, with cc_locks held at the call site *)
+Record ccall := mkccall { cc_struct : string; cc_caller : string; cc_callee : string; cc_locks : list string; cc_line : nat }.
+
+Definition key_eqb (a b : string * string) : bool := String.eqb (fst a) (fst b) && String.eqb (snd a) (snd b).
+Definition mem_key (k : string * string) (l : list (string * string)) : bool := existsb (key_eqb k) l.
+Definition inter (a b : list string) : list string := filter (fun x => mem_s x b) a.
+
+Fixpoint dedups (l : list string) : list string :=
+  match l with [] => [] | x :: r => if mem_s x r then dedups r else x :: dedups r end.
+
+Definition lookup_inh (tbl : list ((string * string) * list string)) (k : string * string) : list string :=
+  match find (fun e => key_eqb k (fst e)) tbl with Some e => snd e | None => [] end.
+
+(* locks a method can rely on being held when it starts: nothing for an exported method (callable from outside)
+   and for a method nobody in the package calls; otherwise the intersection, over all its call sites, of the
+   locks held there (at the site itself or inherited by the caller).  Greatest fixed point, by iteration from
+   "all locks". *)
+Definition inh_step (top : list string) (calls : list ccall) (entries : list (string * string))
+           (cur : list ((string * string) * list string)) : list ((string * string) * list string) :=
+  map (fun e =>
+         let k := fst e in
+         if mem_key k entries then (k, [])
+         else (k, fold_left (fun acc c => inter acc (cc_locks c ++ lookup_inh cur (cc_struct c, cc_caller c)))
+                            (filter (fun c => key_eqb k (cc_struct c, cc_callee c)) calls) top)) cur.
+
+Fixpoint iter_n {A} (n : nat) (f : A -> A) (x : A) : A := match n with 0 => x | S m => iter_n m f (f x) end.
+
+Definition inherited (calls : list ccall) (entries : list (string * string)) : list ((string * string) * list string) :=
+  let top := dedups (flat_map cc_locks calls) in
+  let keys := map (fun c => (cc_struct c, cc_callee c)) calls in
+  iter_n (S (List.length calls)) (inh_step top calls entries) (map (fun k => (k, top)) keys).
+
 Definition writes (a : caccess) : bool := match ca_kind a with AR => false | _ => true end.
 Definition same_slot (a b : caccess) : bool :=
   String.eqb (ca_struct a) (ca_struct b) && String.eqb (ca_field a) (ca_field b).
 Definition cshare_lock (a b : caccess) : bool := existsb (fun l => mem_s l (ca_locks b)) (ca_locks a).
 Definition unprotected (a b : caccess) : bool :=
   same_slot a b && (writes a || writes b) && negb (cshare_lock a b).
+
+(* the accesses with the inherited locks added *)
+Definition effective (accs : list caccess) (calls : list ccall) (entries : list (string * string)) : list caccess :=
+  let inh := inherited calls entries in
+  map (fun a => mkcacc (ca_struct a) (ca_method a) (ca_field a) (ca_kind a)
+                       (ca_locks a ++ lookup_inh inh (ca_struct a, ca_method a)) (ca_file a) (ca_line a)) accs.
 
 Definition unprotected_pairs (accs : list caccess) : list (caccess * caccess) :=
   flat_map (fun a => map (fun b => (a, b)) (filter (unprotected a) accs)) accs.
@@ -48,6 +88,24 @@ Definition append_only_slots (accs : list caccess) : list (string * string) :=
 
 Definition slot_free (accs : list caccess) (s f : string) : bool :=
   negb (existsb (fun p => String.eqb s (fst p) && String.eqb f (snd p)) (unprotected_slots accs)).
+
+(* all slots; the slots some access of which is made under a lock (the code means a mutex to guard them) *)
+Definition all_slots (accs : list caccess) : list (string * string) :=
+  dedup2 (map (fun a => (ca_struct a, ca_field a)) accs).
+Definition guarded_slots (accs : list caccess) : list (string * string) :=
+  dedup2 (map (fun a => (ca_struct a, ca_field a)) (filter (fun a => match ca_locks a with [] => false | _ => true end) accs)).
+
+(* accepted exceptions (data, from KNOWN_FINDINGS.d: confined objects, set-up-time writes): an entry (s, f)
+   covers slot (s, f); (s, "*") covers every field of s *)
+Definition exempted (ex : list (string * string)) (slot : string * string) : bool :=
+  existsb (fun e => String.eqb (fst e) (fst slot) && (String.eqb (snd e) (snd slot) || String.eqb (snd e) "*")) ex.
+
+(* race freedom of the shared clients as a computed predicate: every slot with an unprotected conflicting
+   pair is an accepted exception *)
+Definition clients_race_free (accs : list caccess) (ex : list (string * string)) : bool :=
+  forallb (exempted ex) (unprotected_slots accs).
+Definition new_unprotected_slots (accs : list caccess) (ex : list (string * string)) : list (string * string) :=
+  filter (fun s => negb (exempted ex s)) (unprotected_slots accs).
 
 (* ------------------------------------------------------------------ cached slices / maps escaping the lock *)
 (* cescape: function e_fn returns, without copying, a slice / map that lives in a struct (e_via says which:
